@@ -433,6 +433,44 @@ class Facts:
             self._callers = m
         return self._callers
 
+    def fn_refs(self):
+        """ids of functions mentioned as values (passed as fn items / coerced to fn pointers), i.e.
+        anywhere except the callee position of a direct call."""
+        if getattr(self, "_fn_refs", None) is None:
+            refs = set()
+
+            def scan(o):
+                if isinstance(o, dict):
+                    c = o.get("c")
+                    if isinstance(c, dict) and c.get("k") == "fn":
+                        refs.add(c.get("res", c["id"]))
+                        refs.add(c["id"])
+            for b in self.bodies.values():
+                for bi, si, n in b.iter_nodes():
+                    if n["k"] == "=":
+                        r = n["r"]
+                        for k in ("o", "a", "b"):
+                            if k in r:
+                                scan(r[k])
+                        for o in r.get("ops", []):
+                            scan(o)
+                    elif n["k"] in ("call", "tailcall"):
+                        for a in n["args"]:
+                            scan(a)
+                        if "p" in n["f"]:
+                            pass
+            self._fn_refs = refs
+        return self._fn_refs
+
+    def is_dead(self, body):
+        """A crate-private function that is never called and never mentioned as a value."""
+        b = self.closure_parent(body) or body
+        if b.r.get("reachable") or "trait" in b.r:
+            return False
+        if self.callers().get(b.id):
+            return False
+        return b.id not in self.fn_refs()
+
     def closure_parent(self, body):
         """Walk up to the enclosing fn of a closure body."""
         b = body
